@@ -369,6 +369,9 @@ func (lifeCore) handle(ws []string) string {
 
 var _ = service.DefaultKeepAlive
 
+// genLife: the cause x condition matrix of the property's quantifier (idle, own outgoing ring full, incoming ring
+// full behind a third party's full outgoing ring) with the subject ending first; quick = the first n lines
+// (keep-alive only on the idle connection), thorough = all 15, then random picks.
 func genLife(seed int64, n int, tier string, w *bufio.Writer) {
 	r := rand.New(rand.NewSource(seed))
 	fmt.Fprintln(w, "life reset")
@@ -383,6 +386,9 @@ func genLife(seed int64, n int, tier string, w *bufio.Writer) {
 			if tier != "thorough" && cs == "keepalive" && cd != "idle" {
 				continue
 			}
+			if tier != "thorough" && cd == "infull" && cs != "close" && cs != "disconnect" {
+				continue
+			}
 			fmt.Fprintf(w, "life run %s %s\n", cd, cs)
 			k++
 		}
@@ -392,6 +398,49 @@ func genLife(seed int64, n int, tier string, w *bufio.Writer) {
 	}
 }
 
-func genLifePairs(seed int64, n int, tier string, w *bufio.Writer) {}
-func genLifeSrv(seed int64, n int, tier string, w *bufio.Writer)   {}
-func genLifeChunked(seed int64, n int, tier string, w *bufio.Writer) {}
+type lifeScn struct{ cond, cause, order string }
+
+func emitScns(w *bufio.Writer, r *rand.Rand, n int, fixed []lifeScn, pool []lifeScn) {
+	fmt.Fprintln(w, "life reset")
+	for i := 0; i < n; i++ {
+		var s lifeScn
+		if i < len(fixed) {
+			s = fixed[i]
+		} else if len(pool) > 0 {
+			s = pick(r, pool)
+		} else {
+			return
+		}
+		fmt.Fprintf(w, "life run %s %s %s\n", s.cond, s.cause, s.order)
+	}
+}
+
+// genLifePairs: cross-blocked publisher/subscriber pairs, a connection whose processor is parked in its own
+// outgoing ring, and both orders in which the two involved connections end.
+func genLifePairs(seed int64, n int, tier string, w *bufio.Writer) {
+	all := []lifeScn{
+		{"cross", "close", "s"}, {"cross", "close", "t"}, {"selffull", "close", "s"}, {"infull", "close", "t"},
+		{"selffull", "keepalive", "s"}, {"outfull", "close", "t"}, {"infull", "disconnect", "t"}, {"cross", "keepalive", "s"},
+		{"cross", "keepalive", "t"}, {"outfull", "disconnect", "t"}, {"outfull", "keepalive", "t"}, {"infull", "protoerr", "t"},
+		{"infull", "oversize", "t"}, {"infull", "keepalive", "t"}, {"outfull", "protoerr", "t"}, {"outfull", "oversize", "t"},
+	}
+	emitScns(w, rand.New(rand.NewSource(seed)), n, all, all)
+}
+
+// genLifeSrv: Server.Close with the connections in each condition, the subject registered before / after the
+// third party (Close stops the connections in registration order).
+func genLifeSrv(seed int64, n int, tier string, w *bufio.Writer) {
+	all := []lifeScn{
+		{"infull", "srvclose", "s"}, {"cross", "srvclose", "s"}, {"idle", "srvclose", "s"}, {"outfull", "srvclose", "s"},
+		{"infull", "srvclose", "t"}, {"selffull", "srvclose", "s"}, {"chunked", "srvclose", "s"}, {"cross", "srvclose", "t"},
+		{"outfull", "srvclose", "t"},
+	}
+	emitScns(w, rand.New(rand.NewSource(seed)), n, all, all)
+}
+
+// genLifeChunked: defect F3 (a packet longer than ring size - read block arriving in pieces); the wedging
+// causes are the witness of the open finding, Server.Close still gets the connection down.
+func genLifeChunked(seed int64, n int, tier string, w *bufio.Writer) {
+	all := []lifeScn{{"chunked", "srvclose", "s"}, {"chunked", "close", "s"}, {"chunked", "keepalive", "s"}}
+	emitScns(w, rand.New(rand.NewSource(seed)), n, all, nil)
+}
